@@ -1009,6 +1009,7 @@ func disjointTrees(c *core.Ctx, ts avlh.Trees, n int) (msg string) {
 	owner := map[uintptr]int{}
 	for g := 0; g < n; g++ {
 		stack := []reflect.Value{reflect.ValueOf(ts.Root(g)).Elem().FieldByName("root")}
+		reached := 0 // nodes of handle g seen by the probe
 		for len(stack) > 0 {
 			cur := stack[len(stack)-1]
 			stack = stack[:len(stack)-1]
@@ -1023,9 +1024,16 @@ func disjointTrees(c *core.Ctx, ts avlh.Trees, n int) (msg string) {
 				return fmt.Sprintf("handles %d and %d share a node", o, g)
 			}
 			owner[p] = g
+			reached++
 			n := cur.Elem()
 			ix := nodeFields(n.Type())
 			stack = append(stack, n.Field(ix.left), n.Field(ix.right))
+		}
+		// the probe must have seen as many nodes as Len() reports: a probe reading fields that do not (or no
+		// longer) hold the tree would otherwise find nothing shared and pass vacuously
+		if lo := ts.Exec(avlh.Op{K: "Len", H: g}); lo.Kind == "int" && lo.I != reached {
+			c.Unobservable("C01 node-disjointness probe: the number of nodes reached by reflection from Tree.root differs from Len() of the handle " +
+				"(the probe does not see the whole tree, or Len is wrong)")
 		}
 	}
 	return ""
